@@ -135,6 +135,20 @@ def c02_monitor(ctx, tr, ix):
                     eq += p["qty"] * (p["last"] - p["avg"]) * f["mult"] * sign
             if not near(a["obs"]["margin"], mg["long"] + mg["short"]):
                 ctx.witness("C02.2", {"kind": "margin_formula"}, "%s at %s: margin %r, formula %r" % (kind, when, a["obs"]["margin"], mg["long"] + mg["short"]), rp)
+            # "marked at the latest price": after the day's bar every leg that holds a quantity carries that bar's close
+            # (the settlement price after a settlement in settlement mode) — taken from the bundle, not from the position
+            if kind in ("POST_BAR", "PRE_AFTER_TRADING", "POST_AFTER_TRADING", "PRE_SETTLEMENT"):
+                d8_ = B.d8(when.date())
+                for h in a["holdings"]:
+                    f = ix.fut.get(h["id"])
+                    bar = ix.bar(h["id"], d8_) if f is not None else None
+                    if bar is None or bar[2] != bar[2]:
+                        continue
+                    for side in ("long", "short"):
+                        p = h[side]
+                        if p["qty"] and not near(p["last"], bar[2], 1e-12):
+                            ctx.witness("C02.1", {"kind": "leg_not_marked_at_latest_price", "where": kind}, "%s at %s: %s %s holds %s marked at %r, the day's close is %r"
+                                        % (kind, when, h["id"], side, p["qty"], p["last"], bar[2]), rp)
             tv = a["total_cash"] + eq + sum(x for _, x in a["pending"])
             if not near(a["obs"]["total_value"], tv):
                 ctx.witness("C02.1", {"kind": "total_value_formula"}, "%s at %s: total value %r, cash balance + unrealised %r" % (kind, when, a["obs"]["total_value"], tv), rp)
